@@ -31,6 +31,15 @@ class P:
                 a4 = bytes([rng.choice([10, 172, 192, 198]), rng.randrange(256), rng.randrange(256), rng.randrange(1, 255)])
                 src = a4 if rng.random() < 0.5 else bytes(10) + b"\xff\xff" + a4
                 dg.append((src, bytes(rng.randrange(256) for _ in range(n))))
+            # ... and runs of equal length from exporters whose addresses agree in all but ONE octet (each position in turn), in both
+            # address forms: whatever is remembered from the previous datagram under a key made of part of the address shows here
+            base = bytes([rng.choice([10, 172, 192]), rng.randrange(1, 255), rng.randrange(1, 255), rng.randrange(1, 255)])
+            n = rng.choice([1, 64, 100, mx])
+            for k in (0, 1, 2, 3, 0, 3):
+                v = bytearray(base); v[k] = (v[k] + rng.randrange(1, 200)) % 256 or 1
+                for a4 in (base, bytes(v)):
+                    src = a4 if rng.random() < 0.5 else bytes(10) + b"\xff\xff" + a4
+                    dg.append((src, bytes(rng.randrange(256) for _ in range(n))))
             dst = bytes([127, 0, 0, 1])
             line = "mirror %s %d %s %d %s" % (proto, mx, hx(dst), port, " ".join("%s %s" % (hx(s), hx(p)) for s, p in dg))
             self.cj[line] = {"cmd": "mirror", "proto": proto, "udpsize": mx, "dst": "127.0.0.1", "port": port,
